@@ -15,6 +15,19 @@ def store_load(F):
     return cs[0]
 
 
+def _key_upvars(F):
+    """names under which the async body of Store::load captures its `key` parameter (parameter 2 of the outer fn)"""
+    outer = F.fn("foyer_storage::store::Store::load")
+    names = set()
+    for b in outer.blocks:
+        for s in b.stmts:
+            if s.k == "assign" and s.rv.k == "agg" and s.rv.j.get("ak") == "coroutine":
+                for (n, o) in s.rv.agg_fields():
+                    if o.place is not None and 2 in backslice(outer, o, "prov").args:
+                        names.add(n)
+    return names or {"key"}
+
+
 def key_guard(r, F):
     """every Load::Entry / Load::Piece built from what the engine loaded is control-dependent on the true edge of
     Equivalent::equivalent(requested key, loaded key)"""
@@ -28,7 +41,7 @@ def key_guard(r, F):
     for b in fn.calls_to(r"^equivalent::Equivalent::equivalent$"):
         a0 = backslice(fn, b.term.args[0], "prov")
         a1 = backslice(fn, b.term.args[1], "prov", extra_transparent=[r"Piece::<K, V, P>::key$"])
-        requested = "key" in a0.upvars or "_ref__key" in a0.upvars
+        requested = bool(a0.upvars & _key_upvars(F))
         loaded = any(bb == eb for bb, _ in a1.calls)
         if requested and loaded:
             for (swb, neg) in tables._bool_switches_on(fn, b.idx):
